@@ -48,7 +48,7 @@ theorem osu_calculator_literals_as_modelled : osuCalcLiterals = [
   ("calculate", ["0", "1.0", "0.02", "0.9", "0.0", "1.0", "0.85", "0.0", "1.0", "13.33", "1.8", "0.0", "1.0", "13.33", "5.0", "0.0", "1.0", "1.0", "1.1", "1.1", "1.1", "1.1", "1.0", "1.1"]),
   ("compute_aim_value", ["0.0", "0", "0.0", "0.0", "0.0", "1.0", "1.0", "3.0", "0.95", "0.4", "2000.0", "1.0", "2000.0", "2000.0", "0.5", "0.0", "0.0", "10.33", "0.3", "10.33", "8.0", "0.05", "8.0", "0.0", "1.0", "1.3", "0.0016", "1.0", "2.0", "16.0", "1.0", "0.003", "1.0", "0.04", "12.0", "0.98", "0.0", "2.0", "2500.0"]),
   ("compute_speed_value", ["0.0", "0.95", "0.4", "2000.0", "1.0", "2000.0", "2000.0", "0.5", "0.0", "0.0", "10.33", "0.3", "10.33", "0.0", "1.0", "1.12", "1.0", "0.04", "12.0", "0.0", "0.0", "0.0", "0.0", "0.0", "0.0", "0.0", "0.0", "6.0", "2.0", "6.0", "0.95", "0.0", "2.0", "750.0", "2.0", "14.5", "2.0"]),
-  ("compute_accuracy_value", ["0.0", "0", "0", "6", "2", "6", "0.0", "0.0", "0.0", "24.0", "2.83", "1000.0", "0.3", "1.15", "1.14", "1.08", "1.02"]),
+  ("compute_accuracy_value", ["0.0", "0", "0", "6", "2", "6", "0.0", "0.0", "0.0", "1.52163_f64", "24.0", "2.83", "1000.0", "0.3", "1.15", "1.14", "1.08", "1.02"]),
   ("compute_flashlight_value", ["0.0", "0.0", "0.97", "1.0", "0.775", "0.875", "0.7", "0.1", "200.0", "1.0", "200.0", "0.2", "200.0", "200.0", "1.0", "0.5", "2.0", "0.98", "0.0", "2.0", "2500.0"]),
   ("calculate_speed_deviation", ["0", "0.1", "0.0"]),
   ("calculate_deviation", ["0.0", "1.0", "2.32634787404", "2.0", "1.0", "4.0", "2.0", "2.0", "-0.5", "2.0", "2.0", "1.0", "3.0", "0.0", "1.0", "3.0", "2.0"]),
@@ -72,7 +72,7 @@ theorem taiko_calculator_literals_as_modelled : taikoCalcLiterals = [
 
 /-- numeric literals, per function and in source order, of the code `Model/PerfCalc.lean` transcribes -/
 theorem catch_calculator_literals_as_modelled : catchCalcLiterals = [
-  ("calculate", ["5.0", "0.0049", "1.0", "4.0", "2.0", "100_000.0", "0", "0.95", "0.3", "2500.0", "1.0", "2500", "2500.0", "0.475", "0", "0.8", "0.8", "1.0", "1.0", "9.0", "0.1", "9.0", "10.0", "0.1", "10.0", "8.0", "0.025", "8.0", "10.0", "1.05", "0.075", "10.0", "10.0", "1.01", "0.04", "11.0", "11.0", "1.35", "5.5", "1.0", "0.02", "0.9"]),
+  ("calculate", ["5.0", "0.0049", "1.0", "4.0", "2.0", "100_000.0", "0", "0.95", "0.3", "2500.0", "1.0", "2500", "2500.0", "0.475", "0.97_f64", "0", "0.8", "0.8", "1.0", "1.0", "9.0", "0.1", "9.0", "10.0", "0.1", "10.0", "8.0", "0.025", "8.0", "10.0", "1.05", "0.075", "10.0", "10.0", "1.01", "0.04", "11.0", "11.0", "1.35", "5.5", "1.0", "0.02", "0.9"]),
   ("combo_hits", [])
 ] := by decide
 
@@ -180,22 +180,27 @@ theorem catch_factors_positive (s : CatchState) (n : Nat) (ar : ℝ) :
 theorem wilson_bound_real (n p : ℝ) (hn : 0 < n) (hp0 : 0 < p) (hp1 : p ≤ 1) :
     0 < pLowerBound n p ∧ pLowerBound n p < 1 := pLowerBound_mem n p hn hp0 hp1
 
+/-- … and stays below `1 − 10⁻¹¹` for up to `2³⁴` hits: `erf_inv` is only ever asked for arguments in
+`(0, 1 − 10⁻¹¹]`, the range `ErfFacts` speaks about -/
+theorem wilson_bound_away_from_one (n p : ℝ) (hn : 0 < n) (hp0 : 0 ≤ p) (hp1 : p ≤ 1) (hN : n ≤ maxHits) :
+    pLowerBound n p ≤ 1 - 1e-11 := pLowerBound_le n p hn hp0 hp1 hN
+
 /-- (a) taiko: for `stars ≥ 0`, `0 ≤ mono_stamina_factor < 5/3`, ANY hit window (a non-positive one takes
 the early return), any state and flags, every partial operation of `calculate`,
 `compute_deviation_upper_bound`, `compute_difficulty_value`, `compute_accuracy_value` is in its domain —
 given the sign facts `ErfFacts` about `erf` / `erf_inv` -/
 theorem taiko_domain_ok (sf : Special ℝ) (E : ErfFacts sf) (a : TaikoAttrs ℝ) (H : TaikoAttrsOK a)
-    (m : TaikoMods) (s : TaikoState) : taikoCalculateDom sf a m s = true :=
-  taikoCalculateDom_true sf E a H m s
+    (m : TaikoMods) (s : TaikoState) (hN : s.totalHits ≤ 2 ^ 34) : taikoCalculateDom sf a m s = true :=
+  taikoCalculateDom_true sf E a H m s hN
 
 /-- (b) taiko: pp, pp_acc, pp_difficulty, effective_miss_count are `≥ 0`, the estimated unstable rate
 is `> 0` when present -/
 theorem taiko_pp_nonneg (sf : Special ℝ) (E : ErfFacts sf) (a : TaikoAttrs ℝ) (H : TaikoAttrsOK a)
-    (m : TaikoMods) (s : TaikoState) :
+    (m : TaikoMods) (s : TaikoState) (hN : s.totalHits ≤ 2 ^ 34) :
     0 ≤ (taikoCalculate sf a m s).pp ∧ 0 ≤ (taikoCalculate sf a m s).ppAcc
       ∧ 0 ≤ (taikoCalculate sf a m s).ppDifficulty ∧ 0 ≤ (taikoCalculate sf a m s).effectiveMissCount
       ∧ ∀ u, (taikoCalculate sf a m s).estimatedUnstableRate = some u → 0 < u :=
-  taikoCalculate_nonneg sf E a H m s
+  taikoCalculate_nonneg sf E a H m s hN
 
 /-- (c) taiko: no great hit (in particular zero hits) ⇒ pp, both components are 0 and there is no
 unstable rate — for every attribute value and whatever `erf`/`erf_inv` are (full formula) -/
@@ -407,7 +412,8 @@ example : OsuAttrsOK
   ⟨by norm_num, by norm_num, by norm_num, by norm_num, by norm_num, by norm_num, by decide,
     fun h => by simp at h, fun _ => by decide, fun _ => by decide⟩
 
-example : RelevantCountsOK (120 : ℝ) 5 1 2 := ⟨by norm_num, by norm_num, by norm_num, by norm_num⟩
+example : RelevantCountsOK (120 : ℝ) 5 1 2 :=
+  ⟨by unfold maxHits; norm_num, by norm_num, by norm_num, by norm_num, by norm_num⟩
 
 example : TaikoAttrsOK ⟨30, 0.5, 5, 1000, false⟩ := ⟨by norm_num, by norm_num, by norm_num⟩
 
